@@ -26,7 +26,7 @@ EXPLANATION = (
     "returns floor(c)+1 (within one sample of the true contact).")
 ASSUMPTIONS = [
     "real arithmetic: the 'exactly for power-of-two factors / within one sample otherwise' clause is an IEEE rounding statement; over the reals the index is exactly invariant for every positive factor",
-    "lmfit.minimize (Nelder-Mead) is a contract stub: the fitted x0 is an arbitrary integer position in [0, size); validity of the three fit-based indices is conditional on that (the code does not range-check int(x0))",
+    "lmfit.minimize (Nelder-Mead) is a contract stub: every varying parameter of the result is an arbitrary real inside its bounds; x0 has no bounds, so the fitted x0 is ANY real (an earlier version assumed it inside [0, size), which hid that the code did not range-check int(x0))",
     "scale/offset invariance of fit_constant_polynomial and fit_line_polynomial is not decided (path tree of the product program too large at the minimum sizes 7/8) and not claimed",
     "gradient_zero_crossing: only the branch for <=50 gradient samples (NaN -> size//2) is inside the bound N<=12; its main branch needs >60 samples and is outside",
     "sin/cos of the constant -pi/4 evaluated in double precision (constants only)",
@@ -41,7 +41,8 @@ def bounds(tier):
     q = tier == "quick"
     return {"totality N": {"deviation_from_baseline": "1..10" if q else "1..14",
                            "frechet_direct_path": "1..6" if q else "1..8",
-                           "gradient_zero_crossing": "1..12", "fit-based": "1..8"},
+                           "gradient_zero_crossing": "1..12", "fit-based": "3 and 8, optimiser result for the unbounded x0 arbitrary"},
+            "degenerate data": "constant and strictly decreasing arrays, N in {1,2,6,9}, all six estimators: index == N//2",
             "invariance": {"deviation_from_baseline": "N=5 symbolic c,d; N=10 c in {1/2,2,3}, d symbolic",
                            "frechet_direct_path": "N=4 symbolic c,d; N=6 c in {1/2,2,3}",
                            "fit-based": "fit_constant_line N=5, c in {1,2}, d symbolic (arguments of the optimiser); the two polynomial estimators need N>=7/8 where the product program did not finish within the cap: their invariance is NOT decided and not claimed"},
@@ -65,6 +66,11 @@ def tasks(tier):
         for n in (3, 8):
             ts.append({"name": f"total:{m}:N{n}", "fn": "t_total", "args": {"method": m, "n": n},
                        "max_paths": 6000})
+    for m in METHODS:
+        for kind in ("constant", "decreasing"):
+            for n in (1, 2, 6, 9):
+                ts.append({"name": f"degenerate:{m}:{kind}:N{n}", "fn": "t_total",
+                           "args": {"method": m, "n": n, "kind": kind}, "max_paths": 3000, "witnesses": ["total"]})
     ts.append({"name": "inv:deviation_from_baseline:N5:csym", "fn": "t_inv",
                "args": {"method": "deviation_from_baseline", "n": 5, "c": "sym"}, "max_paths": 3000})
     ts.append({"name": "inv:frechet_direct_path:N4:csym", "fn": "t_inv",
@@ -90,43 +96,47 @@ def _poc():
     symlmfit.reset_stub()
 
     def policy(rec, name, p):
-        if name == "x0":
-            n = len(symnp.asarray(rec["args"][0])._idx)
-            k = core.integer("fit_x0_%d" % rec["index"])
-            assume(k >= 0)
-            assume(k <= n - 1)
-            return core.mk_real(core.rv(k))
+        # the estimators leave x0 unbounded: the optimiser may return any real
+        # (a convergent run stays inside the data; nothing in the code relies on it)
         return None
     symlmfit.MINIMIZE_POLICY[0] = policy
     return w.modules["nanite.poc"]
 
 
-def _run(poc, method, force):
+def _run(poc, method, force, concretize=True):
     """compute_poc; returns (index or None, exception or None)."""
     try:
         cp = poc.compute_poc(force, method=method)
     except (ValueError, IndexError, ZeroDivisionError, TypeError, KeyError) as e:
         return None, e
-    if isinstance(cp, core.SymInt):
+    if concretize and isinstance(cp, core.SymInt):
         cp = core.concretize(cp, -4, 300, "poc index")
     return cp, None
 
 
-def t_total(method, n):
+def t_total(method, n, kind="any"):
     poc = _poc()
     f = [real(f"f{i}") for i in range(n)]
+    if kind == "constant":
+        for i in range(1, n):
+            assume(f[i] == f[0])
+    elif kind == "decreasing":
+        for i in range(1, n):
+            assume(f[i] < f[i - 1])
     check_assumptions()
-    cp, err = _run(poc, method, symnp.SymArr(list(f)))
+    cp, err = _run(poc, method, symnp.SymArr(list(f)), concretize=False)
     if err is not None:
         core.violated("no-exception", info={"exception": repr(err)[:200], "method": method})
         return {"raised": repr(err)[:200]}
     prove("no-exception", True)
-    fitbased = method.startswith("fit_")
-    prove("result-is-an-integer", isinstance(cp, int) and not isinstance(cp, bool), info={"cp": repr(cp)})
-    if isinstance(cp, int):
-        prove("index-inside-the-array", 0 <= cp < n, info={"cp": cp, "n": n})
+    prove("result-is-an-integer", isinstance(cp, (int, core.SymInt)) and not isinstance(cp, bool), info={"cp": repr(cp)[:80]})
+    if isinstance(cp, (int, core.SymInt)):
+        prove("index-inside-the-array", core.all_of([cp >= 0, cp < n]), info={"cp": repr(cp)[:80], "n": n})
+        if kind != "any":
+            # degenerate data: the documented fallback, the middle of the data
+            prove("degenerate-data-give-the-middle-of-the-data", cp == n // 2, info={"cp": repr(cp)[:80], "n": n})
     witness("total")
-    return {"method": method, "n": n, "cp": repr(cp)}
+    return {"method": method, "n": n, "cp": repr(cp)[:60]}
 
 
 def _factor(c):
@@ -222,10 +232,29 @@ sys.exit(0)
     f = [g(f"f{i}") for i in range(n)]
     c = a.get("c")
     cval = g("c", 2.0) if c == "sym" else (float(Fr(c)) if c else 1.0)
+    opts = {}
+    for kk, v in model.items():
+        if kk.startswith("opt_"):
+            _, idx, rest = kk.split("_", 2)
+            opts.setdefault(int(idx), {})[rest.split("!")[0]] = float(v)
     return common.REPLAY_HEAD + f'''
-import nanite.poc as poc
+import nanite.poc as poc, copy
 f = np.array({f!r}, dtype=float); method = {a["method"]!r}
-mode = {task["fn"]!r}
+mode = {task["fn"]!r}; kind = {a.get("kind", "any")!r}
+opts = {opts!r}
+if opts and mode == "t_total":
+    # the optimiser is a contract stub in the harness (any value inside the
+    # parameter bounds): hand the solver's values to the real estimator
+    ncall = [0]
+    def fake_minimize(fcn, params, args=(), method="nelder", **kw):
+        out = copy.deepcopy(params)
+        for nm, val in opts.get(ncall[0], {{}}).items():
+            if nm in out and out[nm].vary: out[nm].set(value=val)
+        ncall[0] += 1
+        class R: pass
+        r = R(); r.params = out; r.success = True; r.residual = np.asarray(fcn(out, *args))
+        return r
+    poc.lmfit.minimize = fake_minimize
 def run(arr):
     try:
         return poc.compute_poc(arr.copy(), method=method), None
@@ -239,6 +268,8 @@ if mode == "t_total":
         bad.append("raised %r" % (err,))
     elif not (isinstance(cp, (int, np.integer)) and 0 <= cp < len(f)):
         bad.append("invalid index %r for size %d" % (cp, len(f)))
+    elif kind != "any" and cp != len(f) // 2:
+        bad.append("%s data: index %r instead of the middle %d" % (kind, cp, len(f) // 2))
 else:
     cp2, err2 = run(f * {cval!r} + {g("d")!r})
     print("scaled ->", cp2, err2)
